@@ -633,6 +633,15 @@ impl World {
     pub fn check_quorum_math(&mut self, c: &CallCtx) -> VResult<()> {
         let n = c.n;
         let o = c.post;
+        // the group-commit switch is the application's: the library never flips it on its own
+        if !matches!(c.kind, CallKind::New) {
+            *self.stats.entry("chk.C11.group_commit_switch").or_insert(0) += 1;
+            let want = self.nodes[&n].want_group_commit;
+            if o.group_commit != want && !matches!(c.kind, CallKind::Knob(Knob::GroupCommit(_))) {
+                let d = format!("node {n}: group commit is {} after {} although the application last set it to {want}", o.group_commit, kind_name(c.kind));
+                return Err(self.violation("C11", "C11.commit_index_exact", n, d, "group_commit_switch_lost".into()));
+            }
+        }
         if o.role == StateRole::Leader {
             let (got, used_gc) = match self.nodes.get_mut(&n).and_then(|x| x.raw.as_mut()) {
                 Some(raw) => raw.raft.mut_prs().maximal_committed_index(),
